@@ -463,6 +463,68 @@ fn overflowing_spans(ev: &mut Ev) {
     }
 }
 
+/// integer element types (i32 / i64, axis values beyond 2^53): the accept / reject decision is
+/// made on the element type's own order, whatever the magnitude
+fn integer_axes(ev: &mut Ev) {
+    use vh::ndarray::{Array1, Array2};
+    use vh::ndarray_interp::interp1d::{Interp1D, Linear};
+    use vh::ndarray_interp::interp2d::Interp2D;
+    let mut rng = Rng::derive(5, "C05-integer-axes", &[0]);
+    let mut id = 8_700_000u64;
+    macro_rules! run {
+        ($t:ty, $name:expr, $bases:expr, $steps:expr) => {{
+            for &base in $bases.iter() {
+                for &step in $steps.iter() {
+                    let n = 3 + rng.below(5);
+                    let ax: Vec<$t> = (0..n).map(|i| base + step * i as $t).collect();
+                    let (lo, hi) = (ax[0], ax[n - 1]);
+                    let x = Array1::from(ax.clone());
+                    let d1 = Array1::from((0..n).map(|i| (i as $t) * 10).collect::<Vec<$t>>());
+                    let lin = Interp1D::builder(d1).x(x.clone()).strategy(Linear::new()).build().unwrap();
+                    let y = Array1::from(vec![0 as $t, 10, 20]);
+                    let g = Array2::from_shape_fn((n, 3), |(i, j)| (i * 3 + j) as $t);
+                    let bx = Interp2D::builder(g.clone()).x(x.clone()).y(y.clone()).build().unwrap();
+                    let by = Interp2D::builder(g.t().to_owned()).x(y.clone()).y(x.clone()).build().unwrap();
+                    let mut qs: Vec<$t> = vec![lo, hi, lo + 1, hi - 1, lo + step / 2, ax[1], ax[n - 2]];
+                    for d in [1 as $t, 2, 3, 100, 255, 256, 1000] {
+                        if let Some(v) = hi.checked_add(d) {
+                            qs.push(v);
+                        }
+                        if let Some(v) = lo.checked_sub(d) {
+                            qs.push(v);
+                        }
+                    }
+                    for &q in &qs {
+                        id += 1;
+                        let inside = q >= lo && q <= hi;
+                        let mut judge = |what: &str, answered: Result<bool, String>, ev: &mut Ev| {
+                            ev.add("integer_axis_queries", 1);
+                            if answered != Ok(inside) {
+                                ev.violation(
+                                    if inside { "C05:in-range-query-rejected" } else { "C05:out-of-range-accepted" },
+                                    &format!("{} {what}, axis {ax:?}, q={q}: answered = {answered:?}, q in the closed range = {inside}", $name),
+                                    id,
+                                    J::obj().set("elem", $name).set("q", format!("{q}")),
+                                );
+                            }
+                        };
+                        judge("Linear interp_scalar", vh::outcome::guard(|| lin.interp_scalar(q).is_ok()), ev);
+                        judge("Linear is_in_range", vh::outcome::guard(|| lin.is_in_range(q)), ev);
+                        judge("Linear interp_array", vh::outcome::guard(|| lin.interp_array(&Array1::from(vec![ax[1], q])).is_ok()), ev);
+                        judge("Bilinear (x axis) interp_scalar", vh::outcome::guard(|| bx.interp_scalar(q, 5).is_ok()), ev);
+                        judge("Bilinear is_in_x_range", vh::outcome::guard(|| bx.is_in_x_range(q)), ev);
+                        judge("Bilinear (y axis) interp_scalar", vh::outcome::guard(|| by.interp_scalar(10, q).is_ok()), ev);
+                        judge("Bilinear is_in_y_range", vh::outcome::guard(|| by.is_in_y_range(q)), ev);
+                        judge("Bilinear (y axis) interp_array", vh::outcome::guard(|| by.interp_array(&Array1::from(vec![0 as $t, 20]), &Array1::from(vec![ax[0], q])).is_ok()), ev);
+                    }
+                }
+            }
+        }};
+    }
+    run!(i64, "i64", [0i64, -50, 1_700_000_000_000_000_000, -(1i64 << 60), (1i64 << 53) - 7, i64::MIN + 2000, i64::MAX - 100_000], [1i64, 7, 100, 1000]);
+    run!(i32, "i32", [0i32, -50, 2_000_000_000, i32::MIN + 2000, 16_777_216], [1i32, 7, 100, 1000]);
+}
+
 fn main() {
     let args = Args::parse("C05");
     let n = args.budget(300, 30000);
@@ -494,6 +556,7 @@ fn main() {
     if args.blocks() {
         aliased_queries(&mut ev);
         overflowing_spans(&mut ev);
+        integer_axes(&mut ev);
     }
     ev.add("strategy_entry_pairs", fams.len() as u64);
     ev.add("strategy_entry_pairs_with_accept_and_reject", both as u64);
